@@ -109,13 +109,22 @@ func (l AbstractListSchema[ItemType]) Unserialize(data any) (any, error) {
 			}
 		}
 
-		result := reflect.MakeSlice(reflect.SliceOf(l.ItemsValue.ReflectedType()), v.Len(), v.Len())
+		itemType := l.ItemsValue.ReflectedType()
+		result := reflect.MakeSlice(reflect.SliceOf(itemType), v.Len(), v.Len())
 		for i := 0; i < v.Len(); i++ {
 			unserializedV, err := l.ItemsValue.Unserialize(v.Index(i).Interface())
 			if err != nil {
 				return nil, ConstraintErrorAddPathSegment(err, fmt.Sprintf("[%d]", i))
 			}
-			result.Index(i).Set(reflect.ValueOf(unserializedV))
+			item := reflect.ValueOf(unserializedV)
+			if !item.Type().AssignableTo(itemType) {
+				// The item type did not keep to what it declares as its reflected type (a one-of over a Go interface that
+				// one of its members does not implement).
+				return nil, ConstraintErrorAddPathSegment(&ConstraintError{
+					Message: fmt.Sprintf("%T cannot be used as a list item of type %s", unserializedV, itemType.String()),
+				}, fmt.Sprintf("[%d]", i))
+			}
+			result.Index(i).Set(item)
 		}
 		return result.Interface(), nil
 	default:
